@@ -255,8 +255,7 @@ pub fn c08_count_local_2bounds_2obs() {
 #[cfg_attr(kani, kani::proof, kani::unwind(5), kani::stub(std::fmt::format, fmt_stub))]
 pub fn c08_linear_buckets() {
     let (start, width) = (any_f64(), any_f64());
-    let count = any_usize();
-    assume(count <= 3);
+    let count = any_usize_in(0, 4);
     let r = linear_buckets(start, width, count);
     let want_err = count < 1 || width <= 0.0;
     assert!(r.is_err() == want_err, "C08 linear_buckets error cases");
@@ -276,8 +275,7 @@ pub fn c08_linear_buckets() {
 #[cfg_attr(kani, kani::proof, kani::unwind(4), kani::stub(std::fmt::format, fmt_stub))]
 pub fn c08_exponential_buckets_errors() {
     let (start, factor) = (any_f64(), any_f64());
-    let count = any_usize();
-    assume(count <= 1);
+    let count = any_usize_in(0, 2);
     let r = exponential_buckets(start, factor, count);
     let want_err = count < 1 || start <= 0.0 || factor <= 1.0;
     vcover!(!want_err, "c08.exp: accepted parameters reachable");
@@ -294,11 +292,9 @@ pub fn c08_exponential_buckets_errors() {
 #[cfg_attr(kani, kani::proof, kani::unwind(5), kani::stub(std::fmt::format, fmt_stub))]
 pub fn c08_exponential_buckets_values() {
     let start = any_f64();
-    let k = any_u8();
-    assume(k < 3);
+    let k = any_u8_below(3);
     let factor = if k == 0 { 2.0 } else if k == 1 { 10.0 } else { 1.5 };
-    let count = any_usize();
-    assume(count >= 1 && count <= 3);
+    let count = any_usize_in(1, 4);
     let r = exponential_buckets(start, factor, count);
     assert!(r.is_err() == (start <= 0.0), "C08 exponential_buckets error cases");
     if let Ok(v) = &r {
